@@ -83,7 +83,8 @@ func c15DeadlineNow() time.Duration {
 			return time.Duration(n) * time.Second
 		}
 	}
-	return c15Deadline
+	// on a machine that is starved of CPU the same recovery takes proportionally longer
+	return time.Duration(float64(c15Deadline) * c15Stretch())
 }
 
 type c15Step struct {
@@ -1464,6 +1465,9 @@ func runC15(ctx context.Context, c core.Case, r *core.Rec) {
 	var p c15Params
 	c.P(&p)
 	p2p.CaptureLogs()
+	if c15Stretch() > 1.5 {
+		r.Note("deadline_stretched_machine_starved_of_cpu")
+	}
 	sc := p.Scenario
 	ctl := sc.control()
 	tag := fmt.Sprintf("c15|%d|%d|%s", c.Seed, c.Index, sc.Name)
@@ -1630,7 +1634,7 @@ func init() {
 		Run:   runC15,
 		Floors: []string{"scenarios_decided", "controls_converged", "writes_during_outage", "scenarios_with_retry_record", "retry_after_unapplied_patch", "b_restarted_on_file_store", "scenarios_with_failed_retry", "no_scenario_left_undecided",
 			"sync_interrupted_after_head_stored", "half_synced_head_pushed_again", "half_synced_state_survived_node_restart"},
-		CaseTimeout: 420 * time.Second,
+		CaseTimeout: 1200 * time.Second, // two attempts of a pair, each bounded by the (stretched) deadline
 		Assumptions: []string{
 			"unbounded 'eventually' restated as: converged, or (B lacks a commit of A and nothing is pending anywhere: no retry record / retry-doc marker for B in A's peer store, no push in flight, the newest update event of every document has had its push attempt, no merge in flight on B) observed unchanged on 14 successive observations; work still pending at D=90s is inconclusive (after one re-execution on fresh nodes), never a violation",
 			"two further clock-free criteria count repetitions, not time: (a) no-progress livelock = the last 6 pushes received by B carried the same head of A, failed inside B with the same error class, and B's block store did not change; (b) stuck retry record = record in state 'retrying' with no push in flight and no new push on 48 successive observations (only the retry goroutine, which is always inside a journalled push, could ever advance it)",
